@@ -125,6 +125,28 @@ def exact_gaps(ctx):
         ctx.case(("exact-gap", k), True)
 
 
+def one_ws_class(ctx):
+    """the same token sequence written with one kind of white space throughout (gen.ws_class_texts): all spellings that the grammar's
+    recogniser accepts parse, and to the same tree"""
+    import recogniser
+    from pyab_experiment.utils.wraper_functions import parse_source
+    by_string = {}
+    for sep, s, t in gen.ws_class_texts():
+        if not recogniser.accepts(t):
+            continue
+        try:
+            a = common.canon_ast(common.quiet(lambda: parse_source(t))[0])
+        except Exception as ex:  # noqa
+            a = {"e": common.classify_exc(ex)}
+        ctx.case(("ws-class", sep, s, len(t)), True)
+        ctx.count("ws-class")
+        first = by_string.setdefault(s, (a, t))
+        if a != first[0]:
+            ctx.violation(f"the kind of white space between the tokens changes the experiment: {t[:120]!r} parses to {json.dumps(a)[:120]}, {first[1][:120]!r} to {json.dumps(first[0])[:120]}",
+                          {"text": t, "other_text": first[1], "impl": a, "other": first[0]})
+            return
+
+
 def run_batch(ctx, n, with_model=True):
     from pyab_experiment.utils.wraper_functions import parse_source
     from pyab_experiment.experiment_evaluator import ExperimentEvaluator
@@ -210,6 +232,7 @@ def run(ctx):
     run_batch(ctx, n)
     huge_trivia(ctx)
     exact_gaps(ctx)
+    one_ws_class(ctx)
 
 
 def search(ctx):
